@@ -13,7 +13,7 @@ CHECKS = {
          "Thousands of random drop/dup/delay scenarios per run for every window size, each wrapping the sequence space >=3 times, with slow consumers; the oracle compares every delivered message byte-for-byte with the accepted Send sequence and re-checks returned slices later. Sampling of schedules and fault scripts, not enumeration. One scenario in eight also makes one transport write fail with an error (the connection may give up; the prefix must hold).",
          "FIFO link model; faults after a clean handshake; go1.26.8 synctest virtual clock; harness message generator", "3/C01", True),
  "C02": ("exploration", "runtime monitoring: prefix oracle over what a real noise Machine returns when an adversary edits the captured ciphertext stream (exhaustive single-bit flips per stream, PRNG edit scripts, targeted replay/reflect/confusion cases)",
-         "Every returned plaintext is compared with what the authentic peer wrote in that direction; the reader keeps reading after errors so resynchronisation, replay across key rotation, reflection and header/body confusion all become observable.",
+         "Every returned plaintext is compared with what the authentic peer wrote in that direction; the reader keeps reading after errors so resynchronisation, replay across key rotation, reflection and header/body confusion all become observable. Sixty (quick) / 1500 (thorough) streams run the same adversary at the connection level (NoiseGrpcConn and NoiseConn pairs, one edit per stream, PRNG read-buffer sizes).",
          "only what ReadMessage returns is judged, not computational secrecy", "3/C02", True),
  "C06": ("exploration", "runtime monitoring: bounded-progress, closure and quiescence oracles over real gbn scenarios in virtual time (fault prefix then reliable link; tail-loss and slow-resend families)",
          "Liveness is restated as bounded progress on the virtual clock: at a 2 h horizon after faults cease every accepted message is delivered or both ends failed visibly; a silent stall needs 20 resend timeouts without a delivery; after full acknowledgement no DATA packet may be retransmitted.",
@@ -22,16 +22,16 @@ CHECKS = {
          "All 256 SYN window values on both handshake paths, all 256 ACK/NACK/DATA sequence values against every sender state for N<=3 (sampled for 20 and 254), mutated noise acts and record streams; any panic or out-of-range bookkeeping is a violation.",
          "websocket envelope exercised through its decoding steps (hook), not through a TLS socket", "3/C07", True),
  "C09": ("exploration", "runtime monitoring: wire-level window monitor (fresh packets vs. delivered ACK/NACKs) plus white-box queue samples on every transmission, virtual-time blocking probes, exhaustive (base,top,seq) sweep of the real queue arithmetic against an independent oracle",
-         "The monitor can only under-estimate what is outstanding, so it never raises a false alarm; blocking semantics are exact in virtual time; small sequence spaces are enumerated completely.",
+         "The monitor can only under-estimate what is outstanding, so it never raises a false alarm; blocking semantics are exact in virtual time; small sequence spaces are enumerated completely. An API-boundary oracle (messages accepted minus packets covered by delivered ACK/NACKs never exceeds N) and transport write errors.",
          "FIFO link; monitor applies acknowledgements at delivery", "3/C09", True),
  "C10": ("fault_enumeration", "runtime monitoring over an enumerated fault space: every deliver/drop/dup/delay vector over the first k handshake packets per direction x start orders x stale-packet prefixes, run against the real handshake code in virtual time with mailbox-like re-dial drivers",
-         "The decision vectors, start orders and stale prefixes are enumerated completely (k=2 quick, k=3 thorough); for each the negotiated windows, the SYNs actually delivered and the eventual request/response exchange are checked.",
+         "The decision vectors, start orders and stale prefixes are enumerated completely (k=2 quick, k=3 thorough); for each the negotiated windows, the SYNs actually delivered and the eventual request/response exchange are checked. 144 transport-error cases (the k-th read or write of one side fails once) extend the enumerated fault space; a constructor must return a connection or an error.",
          "stale SYNs really delivered are not held against the server; schedules within a case are sampled", "3/C10", True),
  "C12": ("exploration", "runtime monitoring: Close injected at recorded event instants of real gbn scenarios in virtual time; bounded-return, FIN, wake-up oracles and a goroutine census of the bubble",
-         "For every drawn scenario Close is injected at the instants of its own wire events (and at random ones), by either side, both, or twice concurrently, over a working or dead transport, with slow and stalled consumers; handshake-phase cancellation, real-time slices for blocking transports (gbn level and a mailbox connection whose write is blocked by relay backpressure) and a goroutine census after scripted mailbox sessions. The census enumerates every goroutine started inside the bubble. A self-close slice (keepalive on one side only; a one-way outage or one transient write error closes the connection by itself) checks that the peer blocked in Recv is told by a FIN over the still working transport.",
+         "For every drawn scenario Close is injected at the instants of its own wire events (and at random ones), by either side, both, or twice concurrently, over a working or dead transport, with slow and stalled consumers; handshake-phase cancellation, real-time slices for blocking transports (gbn level and a mailbox connection whose write is blocked by relay backpressure) and a goroutine census after scripted mailbox sessions. The census enumerates every goroutine started inside the bubble. A self-close slice (keepalive on one side only; a one-way outage or one transient write error closes the connection by itself) checks that the peer blocked in Recv is told by a FIN over the still working transport. Mailbox client set-up cancelled while the relay refuses streams; a staggered second Close on a blocking transport must not return while the receive loop still takes packets.",
          "bounds are exact in virtual time; bare time.Ticker objects without goroutine are not enumerable; schedules sampled", "3/C12", True),
  "C13": ("exploration", "runtime monitoring: silence injected at swept instants into real gbn connections in virtual time, detection-time oracle; hours of virtual idleness for the healthy-peer clause",
-         "Dead-peer detection is timed exactly on the virtual clock for every backlog class (0..N+5) and ping/pong setting; healthy idle connections are watched for up to 24 virtual hours with round-trip times up to the pong timeout (incl. the edge family in which ticks keep coinciding with arrivals); real-time slices add a slow transport, a transport with backpressure at the gbn level, and mailbox-level sessions (dead peer behind a relay holding four messages, 14 s send outage). The backpressure cases cover a fresh packet, a retransmission, and an acknowledgement write in flight as the first blocked write.",
+         "Dead-peer detection is timed exactly on the virtual clock for every backlog class (0..N+5) and ping/pong setting; healthy idle connections are watched for up to 24 virtual hours with round-trip times up to the pong timeout (incl. the edge family in which ticks keep coinciding with arrivals); real-time slices add a slow transport, a transport with backpressure at the gbn level, and mailbox-level sessions (dead peer behind a relay holding four messages, 14 s send outage). The backpressure cases cover a fresh packet, a retransmission, and an acknowledgement write in flight as the first blocked write. Mailbox-level cases also on reconnected and refreshed connections.",
          "detection bound uses the connection's own boosted resend timeout", "3/C13", True),
  "C14": ("exploration", "runtime monitoring: message-boundary oracle over the real gbn code in virtual time; exhaustive small domain of lengths x chunk sizes, random large payloads with faults, deadlines placed between chunks with retries",
          "All lengths 0..25 x chunk sizes 0..8 x all length triples are transferred and compared byte-for-byte; deadline cases place the timer between two chunks of one message.",
@@ -46,10 +46,10 @@ CHECKS = {
          "Histories of Sent/Received events with arbitrary virtual gaps; the monitor checks the floor, where the value may change, the exact recomputed value and the one-step-per-interval boost rule.",
          "duration comparison with 1e-5 relative tolerance", "3/C20", True),
  "C03": ("exploration", "runtime monitoring: real noise Machines over a recording duplex; mismatch cases (single-bit passphrase differences, wrong stored keys) x version ranges x payload sizes with a matching-secret control; oracles on what the responder wrote, both results, snapshots and ConnData",
-         "Every mismatch case is paired with its matching control so that the monitor cannot pass vacuously; the responder's written byte count is the observable form of 'auth payload never released'. One case in eight is a sequence on the same ConnData objects (pairing, then another static key plus the passphrase in both roles, then the reconnect control): the stored-at-pairing-time half of the statement.",
+         "Every mismatch case is paired with its matching control so that the monitor cannot pass vacuously; the responder's written byte count is the observable form of 'auth payload never released'. One case in eight is a sequence on the same ConnData objects (pairing, then another static key plus the passphrase in both roles, then the reconnect control): the stored-at-pairing-time half of the statement. After the pairing further first-time clients are served from the same passphrase buffer; handshake read deadlines on a transport that stays open must surface as errors.",
          "observable secrecy only; rpctest scrypt", "3/C03", True),
  "C04": ("exploration", "runtime monitoring: man-in-the-middle rewriting of real handshakes (all version-byte substitutions across acts, single-bit flips of handshake bytes) over all version-range combinations, both patterns, payload sizes to MiB; view-agreement oracle over machine snapshots and ConnData",
-         "For every trial NOT(both complete AND views differ); violating version rewrites are minimised so that the finding key names the smallest tampering. Sequences on the same ConnData objects add: a write fault at each act (a failed party must have published nothing), the retry, and reconnects with other auth payload lengths.",
+         "For every trial NOT(both complete AND views differ); violating version rewrites are minimised so that the finding key names the smallest tampering. Sequences on the same ConnData objects add: a write fault at each act (a failed party must have published nothing), the retry, and reconnects with other auth payload lengths. Payload slices with spare capacity; the payload an initiator holds is re-checked after other sessions of the process have run.",
          "which range combinations complete is not judged", "3/C04", True),
  "C05": ("exploration", "runtime monitoring in real time: full stack (real Server/Client, GBN, NoiseGrpcConn) over an in-memory relay with fault injection; position-by-position byte-stream oracle, ciphertext-only scan of everything the relay saw, re-run rule for progress",
          "Sessions run in parallel with PRNG write/read-buffer sizes and relay fault profiles; a quarter of the cases are sessions of a real grpc.Server / grpc.ClientConn pair over the same stack (reply-matches-request oracle); safety oracles are time-independent; a progress miss must reproduce alone with a 300 s allowance before it counts.",
@@ -58,10 +58,10 @@ CHECKS = {
          "Up to 6000 records per direction (12 rotations) with bursts that cross rotation boundaries in both directions while records are in flight. A third of the sessions flush through a writer that times out inside records, with reads of the other direction and refused writes in between.",
          "observable secrecy only", "3/C08", True),
  "C11": ("exploration", "runtime monitoring in real time: scripted sessions over real Server.Accept / Client.Dial with gRPC-like drivers on an in-memory relay; exclusivity checked at every hand-out plus porcupine one-slot-lock model; rendezvous ids read from connection addresses and relay log; intruder and outdated-client steps; raw partial-read generations",
-         "Close-by-client / close-by-server / relay-failure / idle events in PRNG order, each followed by an echo on the current or a fresh connection; after pairing every connection must live at the key-derived rendezvous.",
+         "Close-by-client / close-by-server / relay-failure / idle events in PRNG order, each followed by an echo on the current or a fresh connection; after pairing every connection must live at the key-derived rendezvous. Stream closes that report errors, a dialer in back-off while a malformed packet reaches the refreshed listener, per-attempt dial contexts cancelled as grpc does.",
          "real-time liveness verdicts follow the re-run rule", "3/C11", True),
  "C15": ("exploration", "runtime monitoring: net.Conn contract oracle (n<=len(buf), untouched tail, stream equality, write counts) over NoiseGrpcConn, NoiseConn and the plain mailbox connKit with PRNG write sizes and read-buffer sizes",
-         "Read buffers from 1 byte to larger than a record; writes up to 300000 bytes on the TCP variant; oversized writes on the gRPC variant must fail cleanly; transport write timeouts inside records; one credentials object serving connections in turn (abandoned mid-record, late writes by the holder of a closed connection, failed handshakes); calls after Close on every variant; the real Listener/Dial over loopback TCP with a socket that gathers writes. Long sequences (1050-1349 records, two key rotations) on the gRPC and TCP variants; senders that offer the rest again before flushing a timed-out record.",
+         "Read buffers from 1 byte to larger than a record; writes up to 300000 bytes on the TCP variant; oversized writes on the gRPC variant must fail cleanly; transport write timeouts inside records; one credentials object serving connections in turn (abandoned mid-record, late writes by the holder of a closed connection, failed handshakes); calls after Close on every variant; the real Listener/Dial over loopback TCP with a socket that gathers writes. Long sequences (1050-1349 records, two key rotations) on the gRPC and TCP variants; senders that offer the rest again before flushing a timed-out record. Deadline preludes on the real sockets (armed through one setter, cleared through another).",
          "empty-record behaviour beyond the three clauses is not judged", "3/C15", True),
  "C16": ("exploration", "runtime monitoring: the same (deterministic-ephemeral) handshake and records run unfragmented and through fragmenting readers; partial-write writer with timeout errors over all two- and three-way splits of a record, compared byte-for-byte with a bit-identical twin session",
          "Outcome equality under read fragmentation; emitted-bytes equality, flushed-count sum and ErrMessageNotFlushed under partial writes.",
